@@ -101,6 +101,11 @@ enum Consumer {
     InsertLightTiny(usize),
     RemoveVec,
     RemoveFast,
+    /// a store whose k-th mutation fails, driven through the DEFAULT insert_all / remove_all
+    InsertFlaky,
+    RemoveFlaky,
+    QInsertFlaky,
+    QRemoveFlaky,
     SerNt,
     SerTtl,
     SerTtlPretty,
@@ -133,6 +138,10 @@ const CONSUMERS: &[Consumer] = &[
     Consumer::InsertLightTiny(2),
     Consumer::RemoveVec,
     Consumer::RemoveFast,
+    Consumer::InsertFlaky,
+    Consumer::RemoveFlaky,
+    Consumer::QInsertFlaky,
+    Consumer::QRemoveFlaky,
     Consumer::SerNt,
     Consumer::SerTtl,
     Consumer::SerTtlPretty,
@@ -152,7 +161,16 @@ impl Consumer {
         )
     }
     fn closure_can_fail(self) -> bool {
-        matches!(self, Consumer::TryForEach | Consumer::StepTry | Consumer::QuadsTry)
+        matches!(
+            self,
+            Consumer::TryForEach
+                | Consumer::StepTry
+                | Consumer::QuadsTry
+                | Consumer::InsertFlaky
+                | Consumer::RemoveFlaky
+                | Consumer::QInsertFlaky
+                | Consumer::QRemoveFlaky
+        )
     }
     /// documented as buffering: consumes the whole source before producing anything
     fn buffering(self) -> bool {
@@ -307,6 +325,92 @@ impl sophia_api::source::Source for BatchSource {
             f(it).map_err(StreamError::SinkError)?;
         }
         Ok(true)
+    }
+}
+
+/// A set-like store whose k-th mutation (insert or remove call) fails. It implements only the
+/// required methods: bulk operations go through the DEFAULT `insert_all` / `remove_all` of
+/// `MutableGraph` / `MutableDataset`, which are what is under test.
+#[derive(Default)]
+struct Flaky {
+    inner: BTreeSet<STriple>,
+    fail_at: Option<usize>,
+    mutations: usize,
+}
+
+impl Flaky {
+    fn tick(&mut self) -> Result<(), SimFault> {
+        let this = self.mutations;
+        self.mutations += 1;
+        if Some(this) == self.fail_at {
+            Err(SimFault { id: SINK_ID })
+        } else {
+            Ok(())
+        }
+    }
+}
+
+impl Graph for Flaky {
+    type Triple<'x> = [&'x SimpleTerm<'static>; 3];
+    type Error = std::convert::Infallible;
+    fn triples(&self) -> impl Iterator<Item = Result<Self::Triple<'_>, Self::Error>> + '_ {
+        self.inner.iter().map(|t| Ok([&t[0], &t[1], &t[2]]))
+    }
+}
+
+impl MutableGraph for Flaky {
+    type MutationError = SimFault;
+    fn insert<TS, TP, TO>(&mut self, s: TS, p: TP, o: TO) -> Result<bool, SimFault>
+    where
+        TS: sophia_api::term::Term,
+        TP: sophia_api::term::Term,
+        TO: sophia_api::term::Term,
+    {
+        self.tick()?;
+        Ok(self.inner.insert([s.into_term(), p.into_term(), o.into_term()]))
+    }
+    fn remove<TS, TP, TO>(&mut self, s: TS, p: TP, o: TO) -> Result<bool, SimFault>
+    where
+        TS: sophia_api::term::Term,
+        TP: sophia_api::term::Term,
+        TO: sophia_api::term::Term,
+    {
+        self.tick()?;
+        Ok(self.inner.remove(&[s.into_term(), p.into_term(), o.into_term()]))
+    }
+}
+
+/// The same store seen as a dataset (default graph only).
+#[derive(Default)]
+struct FlakyDs(Flaky);
+
+impl sophia_api::dataset::Dataset for FlakyDs {
+    type Quad<'x> = Spog<&'x SimpleTerm<'static>>;
+    type Error = std::convert::Infallible;
+    fn quads(&self) -> impl Iterator<Item = Result<Self::Quad<'_>, Self::Error>> + '_ {
+        self.0.inner.iter().map(|t| Ok(([&t[0], &t[1], &t[2]], None)))
+    }
+}
+
+impl sophia_api::dataset::MutableDataset for FlakyDs {
+    type MutationError = SimFault;
+    fn insert<TS, TP, TO, TG>(&mut self, s: TS, p: TP, o: TO, _g: Option<TG>) -> Result<bool, SimFault>
+    where
+        TS: sophia_api::term::Term,
+        TP: sophia_api::term::Term,
+        TO: sophia_api::term::Term,
+        TG: sophia_api::term::Term,
+    {
+        self.0.insert(s, p, o)
+    }
+    fn remove<TS, TP, TO, TG>(&mut self, s: TS, p: TP, o: TO, _g: Option<TG>) -> Result<bool, SimFault>
+    where
+        TS: sophia_api::term::Term,
+        TP: sophia_api::term::Term,
+        TO: sophia_api::term::Term,
+        TG: sophia_api::term::Term,
+    {
+        self.0.remove(s, p, o)
     }
 }
 
@@ -525,6 +629,25 @@ where
             Consumer::InsertLightTiny(_) => self.insert_into(LightTiny::<14>::new(), ts),
             Consumer::RemoveVec => self.remove_from(Vec::<STriple>::new(), ts),
             Consumer::RemoveFast => self.remove_from(sophia_inmem::graph::FastGraph::new(), ts),
+            Consumer::InsertFlaky | Consumer::RemoveFlaky => {
+                let mut g = Flaky::default();
+                for t in simple(self.pre) {
+                    g.inner.insert(t);
+                }
+                g.fail_at = fail_at;
+                let (c, res) = if self.consumer == Consumer::InsertFlaky {
+                    stream_res(g.insert_all(ts))
+                } else {
+                    stream_res(g.remove_all(ts))
+                };
+                self.out.count = c;
+                self.out.res = res;
+                self.out.state = Some(graph_content(&g));
+            }
+            Consumer::QInsertFlaky | Consumer::QRemoveFlaky => {
+                let qops = self.qops;
+                with_qchain(ts.to_quads(), qops, self);
+            }
             Consumer::SerNt => {
                 let w = SimWriter::new(self.wplan());
                 let mut ser = sophia_turtle::serializer::nt::NtSerializer::new(w.handle());
@@ -589,6 +712,22 @@ where
                     Ok(())
                 });
                 self.out.res = stream_res(r).1;
+            }
+            Consumer::QInsertFlaky | Consumer::QRemoveFlaky => {
+                use sophia_api::dataset::MutableDataset;
+                let mut d = FlakyDs::default();
+                for t in simple(self.pre) {
+                    d.0.inner.insert(t);
+                }
+                d.0.fail_at = fail_at;
+                let (c, res) = if self.consumer == Consumer::QInsertFlaky {
+                    stream_res(d.insert_all(qs))
+                } else {
+                    stream_res(d.remove_all(qs))
+                };
+                self.out.count = c;
+                self.out.res = res;
+                self.out.state = Some(graph_content(&d.0));
             }
             Consumer::QuadsCollect => {
                 let (d, res) = stream_res(qs.collect_quads::<Vec<Spog<SimpleTerm<'static>>>>());
@@ -1236,6 +1375,7 @@ fn check(case: &Case<'_>, twin: &Outcome, out: &Outcome) -> Verdict {
         c,
         Consumer::CollectBTree | Consumer::CollectHash | Consumer::CollectFast | Consumer::CollectLight
             | Consumer::InsertBTree | Consumer::InsertHash | Consumer::InsertFastTiny(_) | Consumer::InsertLightTiny(_) | Consumer::RemoveFast
+            | Consumer::InsertFlaky | Consumer::RemoveFlaky | Consumer::QInsertFlaky | Consumer::QRemoveFlaky
     );
     match c {
         Consumer::CollectVec | Consumer::CollectBTree | Consumer::CollectHash | Consumer::CollectFast | Consumer::CollectLight | Consumer::QuadsCollect => {
@@ -1262,7 +1402,7 @@ fn check(case: &Case<'_>, twin: &Outcome, out: &Outcome) -> Verdict {
                 }
             }
         }
-        Consumer::InsertVec | Consumer::InsertBTree | Consumer::InsertHash | Consumer::InsertFastTiny(_) | Consumer::InsertLightTiny(_) => {
+        Consumer::InsertVec | Consumer::InsertBTree | Consumer::InsertHash | Consumer::InsertFastTiny(_) | Consumer::InsertLightTiny(_) | Consumer::InsertFlaky | Consumer::QInsertFlaky => {
             let applied: &[MTriple] = match sink_fires_at {
                 Some(j) => &expected[..j],
                 None if read_fault => &twin.state.as_deref().unwrap_or(&[])[..0],
@@ -1316,7 +1456,7 @@ fn check(case: &Case<'_>, twin: &Outcome, out: &Outcome) -> Verdict {
                 }
             }
         }
-        Consumer::RemoveVec | Consumer::RemoveFast => {
+        Consumer::RemoveVec | Consumer::RemoveFast | Consumer::RemoveFlaky | Consumer::QRemoveFlaky => {
             let applied: &[MTriple] = match sink_fires_at {
                 Some(j) => &expected[..j],
                 None if src_fires && !read_fault => &exp_prefix,
@@ -1500,7 +1640,7 @@ fn run_c15(ctx: &mut Ctx) -> Verdict {
             None => ops.push((OpKind::Map, !0, 1)),
         }
     }
-    let qops: Vec<(OpKind, u64, u8)> = if matches!(consumer, Consumer::QuadsTry | Consumer::QuadsCollect | Consumer::SerNq) {
+    let qops: Vec<(OpKind, u64, u8)> = if matches!(consumer, Consumer::QuadsTry | Consumer::QuadsCollect | Consumer::SerNq | Consumer::QInsertFlaky | Consumer::QRemoveFlaky) {
         (0..ctx.tape.below(3))
             .map(|_| {
                 let kind = [OpKind::Filter, OpKind::Map, OpKind::FilterMap][ctx.tape.below(3)];
@@ -1528,6 +1668,7 @@ fn run_c15(ctx: &mut Ctx) -> Verdict {
     if matches!(
         consumer,
         Consumer::InsertVec | Consumer::InsertBTree | Consumer::InsertHash | Consumer::InsertFastTiny(_) | Consumer::InsertLightTiny(_) | Consumer::RemoveVec | Consumer::RemoveFast
+            | Consumer::InsertFlaky | Consumer::RemoveFlaky | Consumer::QInsertFlaky | Consumer::QRemoveFlaky
     ) {
         for t in &expected {
             if ctx.tape.chance(1, 3) {
@@ -1785,6 +1926,7 @@ fn main() {
             "SimReader / SimWriter",
             "consumer closures failing at invocation j",
             "TinyIdx<5|9|14> (Index impl with small MAX)",
+            "Flaky / FlakyDs (stores whose k-th mutation fails, using the DEFAULT insert_all / remove_all of MutableGraph / MutableDataset)",
             "reference model of adapter chains (sim/stream/src/ops.rs)",
         ],
         assumptions: &[
